@@ -46,7 +46,7 @@ Definition x_parse_bool : string -> bool := parse_bool cfg_bool_extra.
 Definition x_should_skip : config -> string -> bool := should_skip.
 
 (* --- the per-package analysis (C01-C04, C07-C10, C12-C15, C17) --- *)
-From GG Require Import Model.GoAst Model.RegexSyntax Model.Regex Model.Annot Model.Annots Model.Analyze.
+From GG Require Import Model.GoTypes Model.GoAst Model.RegexSyntax Model.Regex Model.Annot Model.Annots Model.Analyze Model.Impl.
 
 Definition x_parse_implements := parse_implements re_implements.
 Definition x_parse_constructor := parse_constructor re_constructor.
@@ -83,13 +83,16 @@ Definition x_analyze (cfg : config) (p : package) (all : list (string * annots))
       let sup := x_suppressed ops in
       let files := kept_files cfg p in
       AOk own
-        (report_filter sup (imm_candidates fs (p_path p) files) ++
+        (report_filter sup (impl_candidates (p_types p) (p_path p) (p_imports p) (an_impl own)) ++
+         report_filter sup (imm_candidates fs (p_path p) files) ++
          report_filter sup (ctor_candidates fs (p_path p) files) ++
          tonl_diags fs (p_path p) sup files ++
          pkgo_diags fs (p_path p) (p_name p) sup files)
   end.
 
-(* the four AST checkers of a package, as run by x_analyze *)
+(* the @implements checker and the four AST checkers of a package, as run by x_analyze *)
+Definition x_impl (cfg : config) (p : package) (sup : string -> Z -> bool) : list diag :=
+  report_filter sup (impl_candidates (p_types p) (p_path p) (p_imports p) (an_impl (x_read_all cfg p))).
 Definition x_imm (cfg : config) (p : package) (fs : facts) (sup : string -> Z -> bool) : list diag :=
   report_filter sup (imm_candidates fs (p_path p) (kept_files cfg p)).
 Definition x_ctor (cfg : config) (p : package) (fs : facts) (sup : string -> Z -> bool) : list diag :=
@@ -98,6 +101,9 @@ Definition x_tonl (cfg : config) (p : package) (fs : facts) (sup : string -> Z -
   tonl_diags fs (p_path p) sup (kept_files cfg p).
 Definition x_pkgo (cfg : config) (p : package) (fs : facts) (sup : string -> Z -> bool) : list diag :=
   pkgo_diags fs (p_path p) (p_name p) sup (kept_files cfg p).
+
+Definition x_identical : tyt -> tyt -> bool := identical.
+Definition x_signatures_match : sig -> sig -> bool := signatures_match.
 
 (* well-formedness of the serialised trees that the theorems assume: checked on every dumped package *)
 Definition x_wf_package (p : package) : bool :=
